@@ -10,7 +10,9 @@ Import ListNotations.
 Section Strict.
   Variable s : str.
   Variable cx : context.
-  Hypothesis CX : ctx_ok cx = true.
+  (** [tx]: with the text clause of chars nodes, which needs the context condition *)
+  Variable tx : bool.
+  Hypothesis CX : tx = true -> ctx_ok cx = true.
 
   Notation L := (length s).
 
@@ -30,25 +32,25 @@ Section Strict.
     match t with
     | TCollect ps o _ _ | TGeneral ps o _ => good ps /\ good_opts o
     | TGroup ps _ _ _ _ | TMath ps _ _ | TEnvBody ps _ _ | TExpr ps _ _ _ _ _ _ | TLegacyArgs ps _ _ => good ps
-    | TChars ps ch _ _ _ => good ps /\ length ch = 1
+    | TChars ps ch _ _ _ => good ps /\ (tx = true -> length ch = 1)
     | TVerbDelim _ _ _ => True
-    | TStdArg ps k _ => good ps /\ kind_ok k = true
-    | TArgs ps specs _ _ => good ps /\ forallb (fun a => kind_ok (a_kind a)) specs = true
-    | TCall ps _ sp _ => good ps /\ spec_ok sp = true
+    | TStdArg ps k _ => good ps /\ (tx = true -> kind_ok k = true)
+    | TArgs ps specs _ _ => good ps /\ (tx = true -> forallb (fun a => kind_ok (a_kind a)) specs = true)
+    | TCall ps _ sp _ => good ps /\ (tx = true -> spec_ok sp = true)
     end.
 
   (** the collector state while running: [cs_acc] tiles from the collector's
       start to the start [q] of the pending characters, which are the source
       slice from [q] to the reader position *)
   Definition cinvw (start : nat) (st : collstate) (pos : nat) : Prop :=
-    exists q, tiles start q (cs_acc st) /\ wf_items s (cs_acc st) /\
+    exists q, tiles start q (cs_acc st) /\ wf_items tx s (cs_acc st) /\
       q + length (cs_pend st) = pos /\ cs_pend st = slice s q pos /\
       (cs_pend st <> [] -> cs_ppos st = Some q).
   Definition cinv (start : nat) (st : collstate) (pos : nat) : Prop :=
     cinvw start st pos /\ (cs_pend st = [] -> cs_ppos st = None).
   (** nothing pending *)
   Definition cdone (start : nat) (st : collstate) (p : nat) : Prop :=
-    tiles start p (cs_acc st) /\ wf_items s (cs_acc st).
+    tiles start p (cs_acc st) /\ wf_items tx s (cs_acc st).
 
   Definition stop_ok (o : genopts) (stopped : option token) (eos : bool) (st' : collstate) (p : nat) : Prop :=
     match stopped with
@@ -58,7 +60,7 @@ Section Strict.
     end.
 
   Definition node_res (lo p : nat) (n : node) : Prop :=
-    wf_node s n /\ exists a, nspan n = Some (a, p) /\ lo <= a.
+    wf_node tx s n /\ exists a, nspan n = Some (a, p) /\ lo <= a.
   Definition onode_res (lo : nat) (o : out) (p : nat) : Prop :=
     match o with ONode None => True | ONode (Some n) => node_res lo p n | _ => False end.
 
@@ -80,7 +82,7 @@ Section Strict.
 
   Definition general_ok (og : genopts) (pos : nat) (o : out) (p : nat) : Prop :=
     exists pc items, o = ONode (Some (NList (Some pos) (Some pc) items)) /\
-      tiles pos pc items /\ wf_items s items /\ pc <= p /\
+      tiles pos pc items /\ wf_items tx s items /\ pc <= p /\
       (g_require og = true ->
          match g_stop og with
          | SNone => g_nl og = NLNone -> p = L /\ pc = L
@@ -99,33 +101,33 @@ Section Strict.
         res_post pos
           (fun o p => match o with
                       | ONode None => optional = true
-                      | ONode (Some n) => wf_node s n /\ exists a, nspan n = Some (a, p) /\ pos <= a /\
+                      | ONode (Some n) => wf_node tx s n /\ exists a, nspan n = Some (a, p) /\ pos <= a /\
                                                                    (aps = false -> a = pos)
                       | _ => False end)
           (fun p => p = pos /\ exists fin, impl_peek (group_gps ps d) s pos = TokEOS fin) r
     | TMath ps d pos =>
         res_post pos
           (fun o p => match o with
-                      | ONode (Some n) => wf_node s n /\ nspan n = Some (pos, p)
+                      | ONode (Some n) => wf_node tx s n /\ nspan n = Some (pos, p)
                       | _ => False end)
           (fun p => p = pos /\ exists fin, impl_peek ps s pos = TokEOS fin) r
     | TEnvBody ps name pos =>
         res_post pos
           (fun o p => exists pc items, o = ONode (Some (NList (Some pos) (Some pc) items)) /\
-                        tiles pos pc items /\ wf_items s items /\ pc <= p) never r
+                        tiles pos pc items /\ wf_items tx s items /\ pc <= p) never r
     | TExpr ps aps apc full sterr acc pos => full = false -> res_post pos (onode_res pos) (in_range pos) r
     | TChars ps ch aps full pos => res_post pos (onode_res pos) (in_range pos) r
     | TVerbDelim ps d pos => res_post pos (onode_res pos) (in_range pos) r
     | TStdArg ps k pos => res_post pos (onode_res pos) never r
     | TArgs ps specs acc pos =>
-        forall lo, chain lo pos acc -> wf_items s acc ->
-        res_post pos (fun o p => exists l, o = OArgs (Some ([], l)) /\ chain lo p l /\ wf_items s l) never r
+        forall lo, chain lo pos acc -> wf_items tx s acc ->
+        res_post pos (fun o p => exists l, o = OArgs (Some ([], l)) /\ chain lo p l /\ wf_items tx s l) never r
     | TLegacyArgs ps k pos =>
-        res_post pos (fun o p => exists sp l, o = OArgs (Some (sp, l)) /\ chain pos p l /\ wf_items s l) never r
+        res_post pos (fun o p => exists sp l, o = OArgs (Some (sp, l)) /\ chain pos p l /\ wf_items tx s l) never r
     | TCall ps t sp pos =>
         tpos t <= pos ->
         res_post pos (fun o p => match o with
-                                 | ONode (Some n) => wf_node s n /\ nspan n = Some (tpos t, p)
+                                 | ONode (Some n) => wf_node tx s n /\ nspan n = Some (tpos t, p)
                                  | _ => False end) never r
     end.
 
@@ -229,11 +231,11 @@ Section Strict.
 
     Lemma push_check_ok ps o start st1 q nd p :
       good ps -> good_opts o -> cdone start st1 q -> cs_pend st1 = [] -> cs_ppos st1 = None ->
-      wf_node s nd -> nspan nd = Some (q, p) -> p <= L ->
+      wf_node tx s nd -> nspan nd = Some (q, p) -> p <= L ->
       res_post q (coll_ok o start) never (c_push_check rec ps o st1 (Some nd) p p).
     Proof.
       intros G GO [T W] E N WN SP PL.
-      destruct (wf_span_le s nd q p WN SP) as [QP _].
+      destruct (wf_span_le tx s nd q p WN SP) as [QP _].
       assert (D : cdone start (push_node st1 (Some nd)) p).
       { split; unfold push_node; cbn [cs_acc].
         - eapply tiles_snoc; eauto.
@@ -266,7 +268,7 @@ Section Strict.
       Lemma pos_le_tpos : pos <= tpos t.
       Proof. destruct TF. lia. Qed.
 
-      Lemma call_case sp : spec_ok sp = true ->
+      Lemma call_case sp : (tx = true -> spec_ok sp = true) ->
         res_post pos (coll_ok o start) never
           match parse_content false (rec (TCall (child_state o ps t) (c_tok0 t) sp (tend t))) with
           | Ok (ONode (Some n)) p => c_push_check rec ps o st1 (Some n) p p
@@ -295,10 +297,10 @@ Section Strict.
         unfold c_dispatch. destruct (tk t) eqn:K; try exact I; try congruence.
         - (* macro *)
           destruct (get_macro_spec cx (targ t)) as [sp|] eqn:SPEC; [|exact I].
-          apply call_case. eapply (ctx_ok_spec cx TkMacro); eauto.
+          apply call_case. intros TX. eapply (ctx_ok_spec cx TkMacro); eauto.
         - (* environment *)
           destruct (get_env_spec cx (targ t)) as [sp|] eqn:SPEC; [|exact I].
-          apply call_case. eapply (ctx_ok_spec cx TkBeginEnv); eauto.
+          apply call_case. intros TX. eapply (ctx_ok_spec cx TkBeginEnv); eauto.
         - (* comment *)
           eapply res_post_weaken; [|exact PT]. apply push_check_ok; auto.
           cbn [wf_node]. unfold tok_txt in F5. rewrite K in F5. cbn [app] in F5. repeat split; auto; lia.
@@ -348,7 +350,7 @@ Section Strict.
             rewrite EOS in Q. exact Q.
         - (* specials *)
           destruct (get_specials_spec cx (targ t)) as [sp|] eqn:SPEC; [|exact I].
-          apply call_case. eapply (ctx_ok_spec cx TkSpecials); eauto.
+          apply call_case. intros TX. eapply (ctx_ok_spec cx TkSpecials); eauto.
       Qed.
     End Dispatch.
 
@@ -420,11 +422,11 @@ Section Strict.
     p <= e /\ e <= L /\ chain p e (body_items b) /\ body_in p e b /\
     match b with
     | None => True
-    | Some x => wf_node s x /\ prefix dl (slice s p e) /\ suffix dr (slice s p e)
+    | Some x => wf_node tx s x /\ prefix dl (slice s p e) /\ suffix dr (slice s p e)
     end.
 
   Lemma delim_wf p0 p1 pc pe dl dr items :
-    p0 < p1 -> tiles p1 pc items -> wf_items s items -> pc <= pe -> pe <= L ->
+    p0 < p1 -> tiles p1 pc items -> wf_items tx s items -> pc <= pe -> pe <= L ->
     dl = slice s p0 p1 -> dr = slice s pc pe ->
     wf_delim p0 pe dl dr (Some (NList (Some p1) (Some pc) items)).
   Proof.
@@ -510,7 +512,7 @@ Section Strict.
       res_post pos
         (fun o p => match o with
                     | ONode None => False
-                    | ONode (Some n) => wf_node s n /\ exists a, nspan n = Some (a, p) /\ pos <= a /\
+                    | ONode (Some n) => wf_node tx s n /\ exists a, nspan n = Some (a, p) /\ pos <= a /\
                                                                  (aps = false -> a = pos)
                     | _ => False end) never
         match parse_content false
@@ -563,7 +565,7 @@ Section Strict.
         res_post pos
           (fun o p => match o with
                       | ONode None => optional = true
-                      | ONode (Some n) => wf_node s n /\ exists a, nspan n = Some (a, p) /\ pos <= a /\
+                      | ONode (Some n) => wf_node tx s n /\ exists a, nspan n = Some (a, p) /\ pos <= a /\
                                                                    (aps = false -> a = pos)
                       | _ => False end)
           EP
@@ -657,7 +659,7 @@ Section Strict.
       rewrite next_tok_strict. pose proof (good_peek s eps pos GE PL) as TF.
       destruct (impl_peek eps s pos) as [t|fin|e]; [|exact I|exact I].
       pose proof TF as [F1 F2 F3 F4 F5 F6]. unfold e_strict_err.
-      assert (FIN : forall n, wf_node s n -> nspan n = Some (tpos t, tend t) ->
+      assert (FIN : forall n, wf_node tx s n -> nspan n = Some (tpos t, tend t) ->
                     res_post pos (onode_res pos) (in_range pos) (e_finish ps false acc [Some n] (tend t))).
       { intros n W SP. rewrite e_finish_one. cbn [res_post onode_res]. split; [lia|]. split; [lia|].
         split; [exact W|]. exists (tpos t). split; [exact SP|lia]. }
@@ -750,9 +752,9 @@ Section Strict.
         - cbn [res_post]. unfold in_range. lia.
         - destruct (str_eqb (a0 :: ar) ch) eqn:SE; [|exact NONE].
           apply sp_str_eqb_eq in SE.
-          assert (CE : ch = slice s (tpos t) (tend t)).
-          { destruct TX as [TX|TX]; [congruence|]. rewrite <- SE, TX in CH. discriminate. }
-          assert (WC : wf_node s (mk_chars ps (tpos t) (tend t) ch)).
+          assert (CE : tx = true -> ch = slice s (tpos t) (tend t)).
+          { intros TT. destruct TX as [TX|TX]; [congruence|]. specialize (CH TT). rewrite <- SE, TX in CH. discriminate. }
+          assert (WC : wf_node tx s (mk_chars ps (tpos t) (tend t) ch)).
           { cbn [mk_chars wf_node]. repeat split; auto; lia. }
           cbn [res_post onode_res]. split; [lia|]. split; [exact F4|].
           destruct full.
@@ -810,7 +812,8 @@ Section Strict.
           destruct o1 as [[n|]| |]; cbn [onode_res]; auto.
           destruct C as (W & a & SP & LE & _). split; [exact W|]. exists a. auto.
         + destruct P as (-> & _). cbn [onode_res]. repeat split; lia.
-      - cbn [kind_ok] in KO. apply Nat.eqb_eq in KO.
+      - assert (CH : tx = true -> length ch = 1).
+        { intros TT. specialize (KO TT). cbn [kind_ok] in KO. apply Nat.eqb_eq in KO. exact KO. }
         assert (PRE : task_pre (TChars ps ch aps full pos)) by (split; cbn; auto).
         pose proof (IH _ PRE) as P. cbn [post] in P.
         destruct (run s false cx f (TChars ps ch aps full pos)); cbn [res_post] in P |- *; auto.
@@ -827,7 +830,10 @@ Section Strict.
       intros (PL & G & KO). cbn [task_pos] in PL. cbn [post run]. intros lo CH W.
       destruct specs as [|a rest].
       - cbn [res_post]. split; [lia|]. split; [exact PL|]. exists acc. auto.
-      - cbn [forallb] in KO. apply andb_true_iff in KO. destruct KO as [KA KR].
+      - assert (KA : tx = true -> kind_ok (a_kind a) = true).
+        { intros TT. specialize (KO TT). cbn [forallb] in KO. apply andb_true_iff in KO. tauto. }
+        assert (KR : tx = true -> forallb (fun a => kind_ok (a_kind a)) rest = true).
+        { intros TT. specialize (KO TT). cbn [forallb] in KO. apply andb_true_iff in KO. tauto. }
         destruct (peek_tok s false ps pos); [| |exact I].
         all: (assert (PRE : task_pre (TStdArg (apply_adelta ps (a_delta a)) (a_kind a) pos))
                by (split; cbn; auto using good_adelta);
@@ -840,15 +846,15 @@ Section Strict.
               eapply res_post_weaken; [apply P2|exact A]).
         all: try (apply wf_items_snoc_o; [exact W|]; destruct n as [n|]; [apply C|exact I]).
         all: destruct n as [n|];
-          [ destruct C as (WN & a0 & SP & LE); destruct (wf_span_le s n a0 p1 WN SP) as [Q1 Q2];
+          [ destruct C as (WN & a0 & SP & LE); destruct (wf_span_le tx s n a0 p1 WN SP) as [Q1 Q2];
             eapply chain_snoc; eauto; lia
           | apply chain_snoc_none; eapply chain_weaken; eauto ].
     Qed.
 
     Definition legacy_okP (pos : nat) (o : out) (p : nat) : Prop :=
-      exists sp l, o = OArgs (Some (sp, l)) /\ chain pos p l /\ wf_items s l.
+      exists sp l, o = OArgs (Some (sp, l)) /\ chain pos p l /\ wf_items tx s l.
 
-    Lemma legacy_tail ps pos endcode sp al p : pos <= p -> p <= L -> chain pos p al -> wf_items s al ->
+    Lemma legacy_tail ps pos endcode sp al p : pos <= p -> p <= L -> chain pos p al -> wf_items tx s al ->
       res_post pos (legacy_okP pos) never
         match sfind s endcode p with
         | None => PErr (mkerr (Some p) 21 None false None None) pos
@@ -897,7 +903,7 @@ Section Strict.
           - destruct P as (A & B & C). destruct o1 as [n| |]; try exact I.
             apply legacy_tail; auto.
             + destruct n as [n|]; cbn [chain]; [|lia]. destruct C as (W & a & SP & LE & _).
-              destruct (wf_span_le s n a p1 W SP) as [Q1 Q2]. rewrite SP. lia.
+              destruct (wf_span_le tx s n a p1 W SP) as [Q1 Q2]. rewrite SP. lia.
             + destruct n as [n|]; cbn [wf_items]; [|exact I]. split; [apply C|exact I].
           - destruct P as (-> & _). apply legacy_tail; cbn [chain wf_items]; auto. }
         destruct optarg.
@@ -908,9 +914,9 @@ Section Strict.
     Qed.
 
     Lemma call_tail ps t sp pos spx l p : good ps -> tpos t <= pos -> pos <= p -> p <= L ->
-      chain pos p l -> wf_items s l ->
+      chain pos p l -> wf_items tx s l ->
       res_post pos (fun o p => match o with
-                               | ONode (Some n) => wf_node s n /\ nspan n = Some (tpos t, p)
+                               | ONode (Some n) => wf_node tx s n /\ nspan n = Some (tpos t, p)
                                | _ => False end) never
         match tk t with
         | TkBeginEnv =>
@@ -927,7 +933,7 @@ Section Strict.
       intros G TP H1 H2 CH W.
       assert (CH' : chain (tpos t) p l) by (eapply chain_weaken; eauto).
       assert (MAC : res_post pos (fun o p => match o with
-                               | ONode (Some n) => wf_node s n /\ nspan n = Some (tpos t, p)
+                               | ONode (Some n) => wf_node tx s n /\ nspan n = Some (tpos t, p)
                                | _ => False end) never
                  (Ok (ONode (Some (NMacro (tpos t) p (ps_mode ps) (targ t) (tpost t) (Some (spx, l))))) p)).
       { cbn [res_post]. split; [lia|]. split; [lia|]. split; [|reflexivity].
@@ -953,9 +959,10 @@ Section Strict.
       post (TCall ps t sp pos) (run s false cx (S f) (TCall ps t sp pos)).
     Proof.
       intros (PL & G & SO). cbn [task_pos] in PL. cbn [post run]. intros TP.
-      unfold spec_ok in SO.
       destruct (sp_args sp) as [l0|k] eqn:SA; unfold parse_content_args; rewrite !parse_content_strict.
-      - assert (PRE : task_pre (TArgs ps l0 [] pos)) by (split; cbn; auto).
+      - assert (KO : tx = true -> forallb (fun a => kind_ok (a_kind a)) l0 = true).
+        { intros TT. specialize (SO TT). unfold spec_ok in SO. rewrite SA in SO. exact SO. }
+        assert (PRE : task_pre (TArgs ps l0 [] pos)) by (split; cbn; auto).
         pose proof (IH _ PRE) as P. cbn [post] in P.
         assert (C0 : chain pos pos []) by (cbn; lia). specialize (P pos C0 I).
         destruct (run s false cx f (TArgs ps l0 [] pos)) as [o1 p1|e p1|p1|k1|];
@@ -998,7 +1005,7 @@ Section Strict.
   Theorem top_strict fuel a b items p :
     parse_content false (run s false cx fuel (TGeneral (walker_state cx) top_opts 0))
       = Ok (ONode (Some (NList a b items))) p ->
-    a = Some 0 /\ b = Some L /\ p = L /\ tiles 0 L items /\ wf_items s items.
+    a = Some 0 /\ b = Some L /\ p = L /\ tiles 0 L items /\ wf_items tx s items.
   Proof.
     assert (PRE : task_pre (TGeneral (walker_state cx) top_opts 0)).
     { split; cbn [task_pos]; [lia|]. split; [apply good_walker | exact I]. }
@@ -1012,44 +1019,68 @@ Section Strict.
 End Strict.
 
 (** * The strict-mode theorems about [parse_top] *)
-Theorem parse_top_strict_tiles s cx a b items p : ctx_ok cx = true ->
+
+(** positions, tiling, nesting, comment text, delimiters: every string, EVERY context *)
+Theorem parse_top_strict_tiles s cx a b items p :
   parse_top s false cx (walker_state cx) = Ok (ONode (Some (NList a b items))) p ->
   a = Some 0 /\ b = Some (length s) /\ p = length s /\ tiles 0 (length s) items.
 Proof.
-  intros CX H. unfold parse_top in H. apply (top_strict s cx CX) in H. tauto.
+  intros H. unfold parse_top in H.
+  apply (top_strict s cx false (fun E => False_ind _ (Bool.diff_false_true E))) in H. tauto.
 Qed.
 
-Theorem parse_top_strict_wf s cx a b items p : ctx_ok cx = true ->
-  parse_top s false cx (walker_state cx) = Ok (ONode (Some (NList a b items))) p ->
-  wf_node s (NList a b items).
+Lemma wf_of_top tx s a b items : a = Some 0 -> b = Some (length s) -> tiles 0 (length s) items ->
+  wf_items tx s items -> wf_node tx s (NList a b items).
 Proof.
-  intros CX H. unfold parse_top in H. apply (top_strict s cx CX) in H.
-  destruct H as (-> & -> & _ & T & W). rewrite wf_list. split; [|exact W].
+  intros -> -> T W. rewrite wf_list. split; [|exact W].
   split; [lia|]. split; [lia|]. apply tiles_chain. exact T.
 Qed.
 
-Theorem parse_top_strict_verbatim s cx a b items p : ctx_ok cx = true ->
+Theorem parse_top_strict_wf_any s cx a b items p :
+  parse_top s false cx (walker_state cx) = Ok (ONode (Some (NList a b items))) p ->
+  wf_node false s (NList a b items).
+Proof.
+  intros H. unfold parse_top in H.
+  apply (top_strict s cx false (fun E => False_ind _ (Bool.diff_false_true E))) in H.
+  destruct H as (A & B & _ & T & W). apply wf_of_top; assumption.
+Qed.
+
+(** the same with the text of every chars node, under the context condition *)
+Theorem parse_top_strict_wf s cx a b items p : ctx_ok cx = true ->
+  parse_top s false cx (walker_state cx) = Ok (ONode (Some (NList a b items))) p ->
+  wf_node true s (NList a b items).
+Proof.
+  intros CX H. unfold parse_top in H. apply (top_strict s cx true (fun _ => CX)) in H.
+  destruct H as (A & B & _ & T & W). apply wf_of_top; assumption.
+Qed.
+
+Theorem parse_top_strict_verbatim s cx a b items p :
   parse_top s false cx (walker_state cx) = Ok (ONode (Some (NList a b items))) p ->
   concat (map (verbatim_o s) items) = s /\ verbatim s (NList a b items) = s.
 Proof.
-  intros CX H. unfold parse_top in H. apply (top_strict s cx CX) in H.
-  destruct H as (-> & -> & _ & T & W). split.
+  intros H. apply parse_top_strict_tiles in H. destruct H as (-> & -> & _ & T). split.
   - rewrite (tiles_concat s 0 (length s) items T (le_n _)). apply slice_all.
   - unfold verbatim, nspan. cbn [node_pos node_end]. apply slice_all.
 Qed.
 
 (** a strict parse that returns a value returns a positioned node list (never [None], never a lone node) *)
-Theorem parse_top_strict_shape s cx o p : ctx_ok cx = true ->
+Theorem parse_top_strict_shape s cx o p :
   parse_top s false cx (walker_state cx) = Ok o p ->
   exists items, o = ONode (Some (NList (Some 0) (Some (length s)) items)).
 Proof.
-  intros CX H. unfold parse_top in H. rewrite parse_content_strict in H.
-  assert (PRE : task_pre s (TGeneral (walker_state cx) top_opts 0)).
+  intros H. unfold parse_top in H. rewrite parse_content_strict in H.
+  assert (PRE : task_pre s false (TGeneral (walker_state cx) top_opts 0)).
   { split; cbn [task_pos]; [lia|]. split; [apply good_walker | exact I]. }
-  pose proof (run_post s cx CX (parse_fuel s) _ PRE) as P. cbn [post] in P.
+  pose proof (run_post s cx false (fun E => False_ind _ (Bool.diff_false_true E)) (parse_fuel s) _ PRE) as P.
+  cbn [post] in P.
   destruct (run s false cx (parse_fuel s) (TGeneral (walker_state cx) top_opts 0)) as [o1 p1|e p1|p1|k1|];
     cbn [res_post] in P; try discriminate; [|destruct P].
   destruct P as (A & B & pc & it & -> & T & W & PC & RQ).
   specialize (RQ eq_refl). cbn [top_opts g_stop g_nl] in RQ. destruct (RQ eq_refl) as [-> ->].
   injection H as <- <-. eauto.
 Qed.
+
+(** the empty input, every context, both modes *)
+Theorem parse_top_empty tol cx :
+  parse_top [] tol cx (walker_state cx) = Ok (ONode (Some (NList (Some 0) (Some 0) []))) 0.
+Proof. destruct tol; reflexivity. Qed.
